@@ -80,7 +80,8 @@ Definition head_is (l : list byte) (c : byte) : bool :=
   match l with b :: _ => (b =? c)%N | [] => false end.
 
 (* ------------------------------------------------------------------------------------------ *)
-(* MessageBase::extract_element(from, sz, tag, val) with tag and val plain char buffers.
+(* MessageBase::extract_element(from, sz, tag, val) with tag and val the caller's char arrays
+   (template over their sizes TagSz / ValSz = p_tagcap / p_valcap).
    rtag / rval: the bytes written so far into tag[] / val[], in reverse; a write at index
    [length r..] >= capacity is an out-of-bounds write.  Result: bytes consumed (0 = failure) and
    the contents of tag[] and val[] before their terminating NUL. *)
@@ -94,27 +95,55 @@ Definition ee_term (p : params) (ret : nat) (rtag rval : list byte) : ee_res :=
   else if p_valcap p <=? length rval then EEOob SiteVal
   else EERet ret (rev rtag) (rev rval).
 
-(* state get_value *)
+(* state get_value.  Since commit d48d8ce ("extract_element never writes past the caller's tag and
+   value buffers") a value byte arriving with ValSz-1 characters written ends the extraction:
+   "if (vptr == vend) return *vptr = *tptr = 0;".  The writes stay instrumented. *)
 Fixpoint ee_val (p : params) (from : list byte) (ii : nat) (rtag rval : list byte) : ee_res :=
   match from with
-  | [] => ee_term p 0 rtag rval                         (* loop ends: return *val = *tag = 0 *)
+  | [] => ee_term p 0 rtag rval                         (* loop ends: return *vptr = *tptr = 0 *)
   | b :: r =>
-    if (b =? SOH)%N then ee_term p (S ii) rtag rval     (* *val = *tag = 0; return ++ii *)
-    else if p_valcap p <=? length rval then EEOob SiteVal   (* *val++ = from[ii] *)
+    if (b =? SOH)%N then ee_term p (S ii) rtag rval     (* *vptr = *tptr = 0; return ++ii *)
+    else if length rval =? p_valcap p - 1 then ee_term p 0 rtag rval   (* value does not fit *)
+    else if p_valcap p <=? length rval then EEOob SiteVal   (* *vptr++ = from[ii] *)
     else ee_val p r (S ii) rtag (b :: rval)
   end.
 
-(* state get_tag *)
+(* state get_tag; "else if (tptr == tend) return *vptr = *tptr = 0;" for a tag that does not fit *)
 Fixpoint ee_tag (p : params) (from : list byte) (ii : nat) (rtag : list byte) : ee_res :=
   match from with
   | [] => ee_term p 0 rtag []
   | b :: r =>
     if isdigit b then
-      if p_tagcap p <=? length rtag then EEOob SiteTag      (* *tag++ = from[ii] *)
+      if length rtag =? p_tagcap p - 1 then ee_term p 0 rtag []
+      else if p_tagcap p <=? length rtag then EEOob SiteTag      (* *tptr++ = from[ii] *)
       else ee_tag p r (S ii) (b :: rtag)
     else if (b =? EQS)%N then ee_val p r (S ii) rtag []
-    else ee_term p 0 rtag []                                (* return *val = *tag = 0 *)
+    else ee_term p 0 rtag []                                (* return *vptr = *tptr = 0 *)
   end.
+
+(* extract_element as it was before d48d8ce (no bound on either buffer): kept only for the
+   witness c15_overflow_orig_refuted *)
+Fixpoint ee_val_orig (p : params) (from : list byte) (ii : nat) (rtag rval : list byte) : ee_res :=
+  match from with
+  | [] => ee_term p 0 rtag rval
+  | b :: r =>
+    if (b =? SOH)%N then ee_term p (S ii) rtag rval
+    else if p_valcap p <=? length rval then EEOob SiteVal
+    else ee_val_orig p r (S ii) rtag (b :: rval)
+  end.
+
+Fixpoint ee_tag_orig (p : params) (from : list byte) (ii : nat) (rtag : list byte) : ee_res :=
+  match from with
+  | [] => ee_term p 0 rtag []
+  | b :: r =>
+    if isdigit b then
+      if p_tagcap p <=? length rtag then EEOob SiteTag
+      else ee_tag_orig p r (S ii) (b :: rtag)
+    else if (b =? EQS)%N then ee_val_orig p r (S ii) rtag []
+    else ee_term p 0 rtag []
+  end.
+
+Definition extract_element_orig (p : params) (from : list byte) : ee_res := ee_tag_orig p from 0 [].
 
 Definition extract_element (p : params) (from : list byte) : ee_res := ee_tag p from 0 [].
 
@@ -261,6 +290,9 @@ Definition ending_of (o : outcome) (closed : bool) : ending :=
 (* a whole run: [closed] = the peer closes the connection after the last chunk *)
 Definition run (p : params) (chunks : sock) (closed : bool) : list (list byte) * ending :=
   let (d, o) := read_all (S (total chunks)) p chunks in (d, ending_of o closed).
+
+(* the longest preamble field value extract_element accepts: ValSz - 1 *)
+Definition max_width (p : params) : nat := p_valcap p - 1.
 
 (* the configuration of the pinned tree with the UTEST (FIX.4.2) context *)
 Definition fix42 : list byte := [70; 73; 88; 46; 52; 46; 50]%N.
